@@ -1142,10 +1142,10 @@ theorem panic_evidence_given : PanicSites.evidenceGiven = true := by decide +ker
 
 /-- (rows, sites) per class: a proved, b guarded (tabled), c outside the quantifier, d oracle only -/
 theorem panic_site_class_counts :
-    (PanicSites.rowsOf .a, PanicSites.sitesOf .a) = (65, 139) ∧
+    (PanicSites.rowsOf .a, PanicSites.sitesOf .a) = (67, 146) ∧
     (PanicSites.rowsOf .b, PanicSites.sitesOf .b) = (27, 36) ∧
     (PanicSites.rowsOf .c, PanicSites.sitesOf .c) = (20, 27) ∧
-    (PanicSites.rowsOf .d, PanicSites.sitesOf .d) = (159, 291) := by decide +kernel
+    (PanicSites.rowsOf .d, PanicSites.sitesOf .d) = (157, 284) := by decide +kernel
 
 example : PanicSites.rows.length > 200 ∧ Gen.panicSites.length = PanicSites.rows.length := by decide +kernel
 
@@ -1191,6 +1191,16 @@ theorem reprStr_no_panic (esc : Char → Bool) (s : List Char) : ReprStr.reprK e
 -- a two-byte control character (the seeded change C01-6)
 example : ReprStr.reprWith (ReprStr.escapes '\'') (fun _ => 1) ['\u0085', 'a'] = .panic := by decide
 example : ReprStr.reprOut ['\u0085', 'a', '\'', 'é'] = .ok 10 := by decide
+
+/-- the window of source lines `render_debug_info` prints around the error line: every `index + 1` fits
+    a `usize`, for every line number and every source of fewer than 2^63 lines -/
+theorem debugWindow_no_panic (line : Option Nat) (n : Nat) (hl : ∀ l, line = some l → l < 18446744073709551616)
+    (hn : n < 9223372036854775808) : IntOps.debugWindowK line n ≠ .panic :=
+  IntOps.debugWindowK_no_panic line n hl hn
+
+example : IntOps.debugWindowK (some 5) 9 = .ok ([2, 3, 4], [5], [6, 7, 8]) := by decide
+example : IntOps.debugWindowK (some 12) 9 = .ok ([9], [], []) := by decide
+example : IntOps.usizeAdd 18446744073709551615 1 = .panic := by decide
 
 /-- the static argument count of every call the parser accepts fits the `u16` of the call instructions:
     `assert!(pending_args as u16 as usize == pending_args)` of `compile_call_args` cannot fail (the
